@@ -88,7 +88,9 @@ func judgeC02(key string, o *drive.Outcome) h.Result {
 		r.Detail = "go/types accepts the program; builder reports: " + o.Msg
 	case "accepted":
 		if len(o.OutErrs) > 0 {
-			r.Verdict, r.Kind = h.Skip, "ill-typed-output(see C01)"
+			// a valid program whose emitted form Go rejects is not reproduced (C01 reports the same output as ill-typed)
+			r.Verdict, r.Kind = h.Violated, "valid-program-emitted-ill-typed"
+			r.Detail = "go/types accepts the program, the builder accepts it, but the emitted package does not type-check: " + firstN(o.OutErrs, 2) + "\noutput:\n" + o.Output()
 			return r
 		}
 		r.Count("dumps_compared", 1)
